@@ -161,23 +161,38 @@ Lemma erase_gen s steps : forall a b,
   tg s (m_sess (mrun b (filter (not_of s) steps))) = tg s (m_sess b) /\
   others s (mtrace a steps) = mtrace b (filter (not_of s) steps).
 Proof.
-  induction steps as [|p r IH]; intros a b Hag Hnc; simpl.
-  - repeat split; try reflexivity; apply Hag.
-  - unfold not_of at 1 3 5. unfold others. simpl. unfold not_of at 1. simpl.
-    destruct (i3_eq_dec (fst p) s) as [E|E].
+  induction steps as [|p r IH]; intros a b Hag Hnc.
+  - simpl. repeat split; try reflexivity; apply Hag.
+  - destruct p as [s0 o].
+    destruct (i3_eq_dec s0 s) as [E|E].
     + (* a step of s: erased *)
-      rewrite E, i3_eqb_refl. simpl.
-      destruct p as [s0 o]. simpl in E. subst s0.
+      subst s0.
+      assert (Hf : not_of s (s, o) = false) by (unfold not_of; simpl; rewrite i3_eqb_refl; reflexivity).
       assert (Hc : commits (snd (mstep a (s, o))) = false).
       { apply (Hnc ((s, o), snd (mstep a (s, o)))); [left; reflexivity|reflexivity]. }
+      change (filter (not_of s) ((s, o) :: r)) with (if not_of s (s, o) then (s, o) :: filter (not_of s) r else filter (not_of s) r).
+      change (others s (mtrace a ((s, o) :: r))) with
+        (if not_of s (s, o) then ((s, o), snd (mstep a (s, o))) :: others s (mtrace (fst (mstep a (s, o))) r)
+         else others s (mtrace (fst (mstep a (s, o))) r)).
+      change (mrun a ((s, o) :: r)) with (mrun (fst (mstep a (s, o))) r).
+      rewrite Hf.
       apply IH.
       * apply step_same_session_no_commit; assumption.
       * intros e Hin. apply Hnc. right. exact Hin.
-    + rewrite (i3_eqb_neq _ _ E). simpl.
-      destruct (step_other_session s a b p Hag E) as [Ho [Hag' Hs']].
-      destruct (IH (fst (mstep a p)) (fst (mstep b p)) Hag') as [H1 [H2 H3]].
+    + assert (Hf : not_of s (s0, o) = true) by (unfold not_of; simpl; rewrite (i3_eqb_neq _ _ E); reflexivity).
+      change (filter (not_of s) ((s0, o) :: r)) with (if not_of s (s0, o) then (s0, o) :: filter (not_of s) r else filter (not_of s) r).
+      change (others s (mtrace a ((s0, o) :: r))) with
+        (if not_of s (s0, o) then ((s0, o), snd (mstep a (s0, o))) :: others s (mtrace (fst (mstep a (s0, o))) r)
+         else others s (mtrace (fst (mstep a (s0, o))) r)).
+      change (mrun a ((s0, o) :: r)) with (mrun (fst (mstep a (s0, o))) r).
+      rewrite Hf.
+      change (mrun b ((s0, o) :: filter (not_of s) r)) with (mrun (fst (mstep b (s0, o))) (filter (not_of s) r)).
+      change (mtrace b ((s0, o) :: filter (not_of s) r)) with
+        (((s0, o), snd (mstep b (s0, o))) :: mtrace (fst (mstep b (s0, o))) (filter (not_of s) r)).
+      destruct (step_other_session s a b (s0, o) Hag E) as [Ho [Hag' Hs']].
+      destruct (IH (fst (mstep a (s0, o))) (fst (mstep b (s0, o))) Hag') as [H1 [H2 H3]].
       { intros e Hin. apply Hnc. right. exact Hin. }
-      repeat split; try apply H1.
+      split; [exact H1|]. split.
       * rewrite H2. exact Hs'.
       * rewrite Ho. f_equal. exact H3.
 Qed.
